@@ -413,6 +413,8 @@ public:
       O["op"] = X->getOpcodeStr().str();
       O["l"] = expr(X->getLHS());
       O["r"] = expr(X->getRHS());
+      // address-dependent arithmetic / comparison (C17.e): an operand of pointer type
+      if (X->getLHS()->getType()->isPointerType() || X->getRHS()->getType()->isPointerType()) O["ptr"] = true;
       return std::move(O);
     }
     if (auto *X = dyn_cast<ConditionalOperator>(E)) {
